@@ -7,8 +7,6 @@ import (
 	"encoding/hex"
 	"encoding/json"
 	"fmt"
-	"os"
-	"path/filepath"
 	"sort"
 	"strings"
 
@@ -245,24 +243,13 @@ func clip(s string) string {
 
 func init() {
 	commands["run"] = func(in *bufio.Scanner, out *bufio.Writer) error {
-		for in.Scan() {
+		return jobLoop(in, out, func(line []byte) (any, error) {
 			var job runJob
-			if err := json.Unmarshal(in.Bytes(), &job); err != nil {
-				return err
+			if err := json.Unmarshal(line, &job); err != nil {
+				return nil, err
 			}
-			if !filepath.IsAbs(job.Config) {
-				return fmt.Errorf("config must be absolute: %s", job.Config)
-			}
-			// relative paths in the configuration are relative to the case directory
-			if err := os.Chdir(filepath.Dir(job.Config)); err != nil {
-				return err
-			}
-			b, _ := json.Marshal(doRun(job))
-			out.Write(b)
-			out.WriteByte('\n')
-			out.Flush()
-		}
-		return nil
+			return doRun(job), nil
+		})
 	}
 }
 
